@@ -140,8 +140,11 @@ impl<'a> UnresolvedAddress<'a> {
                     Ok(ipv6::Address::from_octets(bytes))
                 }
                 (index, AddressMode::InLine16bits(inline)) => {
+                    // The interface identifier is 0000:00ff:fe00:XXXX (RFC 6282 § 3.1.1); bits
+                    // covered by the context are taken from the context.
+                    bytes[11..13].copy_from_slice(&EUI64_MIDDLE_VALUE[..]);
+                    bytes[14..].copy_from_slice(inline);
                     copy_context(index, &mut bytes[..])?;
-                    bytes[16 - inline.len()..].copy_from_slice(inline);
                     Ok(ipv6::Address::from_octets(bytes))
                 }
                 (index, AddressMode::FullyElided) => {
